@@ -373,3 +373,16 @@ def _shares(ck):
     s17 = _core.Shared(ck, 'R11.2', lambda r, k: r == 'R17.2', 'C17:', ' [the element kind is chosen by `is_derived_from`: a class that wrongly counts as derived from QAction or QLayout becomes an <action> or <layout>]')
     c17.run(s17)
     ck.floor('R11.2', s17.count, 3, 'shared C17 R17.2 obligations')
+
+    # which class a type name stands for (and with it the element kind) depends on the import scope: C18 R18.4, same facts
+    import rules.c18 as c18
+    s18 = _core.Shared(ck, 'R11.2', lambda r, k: r == 'R18.4' and (k.startswith(('own-directory-imported', 'base-directory-imported', 'import-stack-'))), 'C18:',
+                       ' [a child whose type name resolves to another class is dispatched to another element kind]')
+    c18.run(s18)
+    # the .ui on disk is this run's tree, in the file meant for it (C15 R15.4 / R15.5)
+    import rules.c15 as c15
+    ck.rule('R11.8', 'the tree that was built is what is written to the .ui path (shared with C15)')
+    s15 = _core.Shared(ck, 'R11.8', lambda r, k: (r == 'R15.4' and k.endswith('|skipped-only-if-same-bytes')) or (r == 'R15.5' and (k in ('ui-path-gets-form-xml', 'both-outputs-written') or k.startswith(('buffer-starts-empty|', 'path-')))), 'C15:',
+                       ' [the order, classes and kinds in the .ui are those of the current document only if the file is this run\'s form]')
+    c15.run(s15)
+    ck.floor('R11.8', s15.count, 6, 'shared C15 obligations on the .ui write')
